@@ -167,13 +167,26 @@ def c09_edge(ctx, I, t):
         inside = any((py(t.m(r, 'get_year')), py(t.m(r, 'get_month')), py(t.m(r, 'get_day'))) == inst[:3] and (py(t.m(r, 'get_hour')) + 1) // 2 == (inst[3] + 1) // 2 for r in res)
         return (sound, inside)
     dom_start = [(1, (1, 1, 2, 12, 0, 0), (1, 30)), (1, (1, 1, 4, 8, 0, 0), (1, 1)), (1, (1, 1, 20, 10, 0, 0), (1, 30)), (1, (1, 2, 12, 10, 0, 0), (1, 1))]
-    dom_end = [(0, (9999, 12, 12, 10, 0, 0), (9960, 9999)), (0, (9999, 12, 20, 14, 0, 0), (9999, 9999)), (0, (9999, 12, 31, 10, 0, 0), (9999, 9999))]
+    dom_end = [(0, (9999, 12, 12, 10, 0, 0), (9960, 9999)), (0, (9999, 12, 20, 14, 0, 0), (9999, 9999)), (0, (9999, 12, 31, 10, 0, 0), (9999, 9999)), (0, (9999, 12, 30, 10, 0, 0), (9999, 9999))]
     f_ = lambda x: '%s searched over %s' % ('%04d-%02d-%02d %02d:00' % x[1][:4], x[2])
     table(ctx, 'RANGE-END', 'RANGE:EightChar::get_solar_times:first-year', dom_start, search, lambda x: (True, True),
           'the inverse search finds an instant of January / February 0001 when the searched range starts with year 1 (its year pillar is that of year 0 before Lichun)',
           f_, fn_site(p, 'EightChar::get_solar_times'))
     table(ctx, 'RANGE-END', 'RANGE:EightChar::get_solar_times:last-year', dom_end, search, lambda x: (True, True),
           'the inverse search finds an instant of December 9999 when the searched range ends with year 9999', f_, fn_site(p, 'EightChar::get_solar_times'))
+
+    # characters whose only candidate day in the last sexagenary month(s) of 9999 would fall in January 10000: the answer is "no instant", not a failure
+    def absent(x):
+        si, inst, k, rng = x
+        cm = CalModel(I, scen[si][1], scen[si][2])
+        ec = t.m(t.m(cm.solar_time(*inst), 'get_lunar_hour'), 'get_eight_char')
+        ec2 = I.call('EightChar::from_sixty_cycle', [t.m(ec, 'get_year'), t.m(ec, 'get_month'), t.m(t.m(ec, 'get_day'), 'next', k), t.m(ec, 'get_hour')])
+        res = t.m(ec2, 'get_solar_times', rng[0], rng[1])
+        return [I.display(r) for r in res if py(t.m(r, 'get_year')) == 9999 and py(t.m(r, 'get_month')) >= 11]
+    dom_abs = [(0, (9999, 12, 20, 10, 0, 0), 30, (9999, 9999)), (0, (9999, 12, 30, 10, 0, 0), 10, (9999, 9999))]
+    table(ctx, 'RANGE-END', 'RANGE:EightChar::get_solar_times:last-year:absent', dom_abs, absent, lambda x: [],
+          'eight characters whose day pillar next occurs in January 10000 (same year and month pillars as an instant of December 9999): the search over a range ending with 9999 returns no instant of that month instead of failing',
+          lambda x: '%s with the day pillar moved %d places, searched over %s' % ('%04d-%02d-%02d %02d:00' % x[1][:4], x[2], x[3]), fn_site(p, 'EightChar::get_solar_times'))
 
 
 def day_star_on(ctx, I, t, scen, picks, key, what, rule):
